@@ -31,6 +31,26 @@ type sinks struct {
 	httpReq atomic.Int64
 	tcpConn atomic.Int64
 	udpPkt  atomic.Int64
+	gate    atomic.Pointer[gate] // non-nil: the HTTP sink is a slow endpoint that holds every request
+}
+
+// gate makes the HTTP sink hold requests: a request is answered when it gets a token, when the gate is
+// released, or when its client gives up.
+type gate struct {
+	arrived  atomic.Int64
+	tokens   chan struct{}
+	released chan struct{}
+}
+
+func (s *sinks) hold() *gate {
+	g := &gate{tokens: make(chan struct{}, 64), released: make(chan struct{})}
+	s.gate.Store(g)
+	return g
+}
+
+func (s *sinks) unhold(g *gate) {
+	s.gate.Store(nil)
+	close(g.released)
 }
 
 func newSinks() (*sinks, error) {
@@ -38,6 +58,14 @@ func newSinks() (*sinks, error) {
 	s.http = httptest.NewServer(http.HandlerFunc(func(w http.ResponseWriter, req *http.Request) {
 		_, _ = io.Copy(io.Discard, req.Body)
 		s.httpReq.Add(1)
+		if g := s.gate.Load(); g != nil {
+			g.arrived.Add(1)
+			select {
+			case <-g.tokens:
+			case <-g.released:
+			case <-req.Context().Done():
+			}
+		}
 		w.WriteHeader(http.StatusOK)
 	}))
 	var err error
